@@ -10,6 +10,7 @@
   clients' merges are decided in C15/C16.
 -/
 import KadDHT.Model.ProvSearch
+import KadDHT.Model.Lookup
 namespace KadDHT.C08
 open KadDHT.ProvSearch
 
@@ -339,5 +340,23 @@ theorem stop_after_count (count : Nat) (s : St) (h : full count s = true) (more 
 example : (search 2 [⟨7, false⟩] [[⟨7, true⟩, ⟨3, true⟩, ⟨4, true⟩], [⟨5, true⟩]]).yielded = [⟨7, false⟩, ⟨7, true⟩, ⟨3, true⟩] := by
   decide
 example : (search 0 [] [[⟨3, false⟩], [⟨3, true⟩, ⟨4, false⟩]]).yielded = [⟨3, false⟩, ⟨3, true⟩, ⟨4, false⟩] := by decide
+
+/-! ### "… and then stops asking further peers" -/
+
+/-- once the search has been stopped because the requested number of providers was found (`stopFn`), or the caller's
+    context has ended, the follow-up phase asks nobody: whatever the lookup result looks like, no further request is
+    issued (the requests already under way are the only ones that still come back) -/
+theorem no_request_after_stop {P : Type} [DecidableEq P] (r : Lookup.Result P) (ctxCancelled : Bool) :
+    (Lookup.afterFollowup r ctxCancelled true).2 = [] ∧ (Lookup.afterFollowup r true false).2 = [] := by
+  unfold Lookup.afterFollowup
+  constructor <;> split <;> simp
+
+/-- … whereas an unstopped, uncancelled lookup does ask every returned peer it has not heard from yet -/
+theorem followups_asked_otherwise {P : Type} [DecidableEq P] (r : Lookup.Result P) :
+    (Lookup.afterFollowup r false false).2 = Lookup.followups r := by
+  unfold Lookup.afterFollowup
+  split
+  · rename_i h; simp at h; simp [h]
+  · simp
 
 end KadDHT.C08
